@@ -144,7 +144,7 @@ class Describer:
                     terms = [z3.Select(z3.Select(self.h[t.val_key(i)], v.v), z3.StringVal(k))
                              for i in range(len(t.v.sorts()))]
                     items[k] = self.describe(t.v.make(terms))
-            return {"ref": rid, "dict": items, "udict": t.udict}
+            return {"ref": rid, "dict": items, "udict": t.udict, "flavour": t.flavour}
         if isinstance(t, TSet):
             self.memo[memo_key] = True
             arr = z3.Select(self.h[t.key()], v.v) if t.key() in self.h else None
@@ -224,7 +224,10 @@ class Builder:
             if key in self.objs:
                 return self.objs[key]
             util = importlib.import_module("pint.util")
-            out = util.udict() if d.get("udict") else {}
+            import collections
+
+            out = (collections.defaultdict(int) if d.get("flavour") == "ddict"
+                   else util.udict() if d.get("udict") else {})
             self.objs[key] = out
             for k, v in d["dict"].items():
                 out[k] = self.build(v)
